@@ -18,6 +18,13 @@ var (
 	errUnknownAlgo = errors.New("unexpected NTS-KE meta data: unknown algorithm")
 )
 
+// maxCookieLen is the longest cookie a client keeps: a request (at most
+// nts.MaxPacketLen = 1280 bytes) carries the NTP header (48), a unique
+// identifier (36), the cookie (4 + length) and an authenticator (40).
+const maxCookieLen = 1280 - 48 - 36 - 4 - 40
+
+var errCookieTooLong = errors.New("unexpected NTS-KE meta data: cookie too long")
+
 // Fetcher is a client side NTS Cookie fetcher. It can be used for both TCP/TLS and SCION QUIC connections.
 type Fetcher struct {
 	Log       *slog.Logger
@@ -92,6 +99,11 @@ func (f *Fetcher) exchangeKeys(ctx context.Context) error {
 	if len(f.data.Cookie) == 0 {
 		return errNoCookies
 	}
+	for _, cookie := range f.data.Cookie {
+		if len(cookie) > maxCookieLen {
+			return errCookieTooLong
+		}
+	}
 	if f.data.Algo != AES_SIV_CMAC_256 {
 		return errUnknownAlgo
 	}
@@ -118,5 +130,8 @@ func (f *Fetcher) FetchData(ctx context.Context) (Data, error) {
 
 // StoreCookie stores a cookie byte slice and appends it to the cached data.
 func (f *Fetcher) StoreCookie(cookie []byte) {
+	if len(cookie) > maxCookieLen {
+		return
+	}
 	f.data.Cookie = append(f.data.Cookie, cookie)
 }
